@@ -23,6 +23,7 @@ SEMANTIC = (
     "unreachable",
     "cannot show invariant",
     "possible overflow",
+    "precondition not met",
 )
 RESOURCE = ("rlimit", "Resource limit", "timed out", "timeout")
 
